@@ -2802,13 +2802,24 @@ namespace
                           [](const Entry& a, const Entry& b) { return a.name < b.name; });
                 sorted = true;
             }
+            // families whose members are few but carry the mechanism of the property get more weight
+            // (cached arenas only exist in memory_stack: C05/C12)
+            auto weight = [&](Family f) -> unsigned
+            {
+                if (f == F_STACK && (std::string(mode.prop) == "C05" || std::string(mode.prop) == "C12"))
+                    return 5;
+                return 1;
+            };
             std::vector<const Entry*> cand;
             for (auto& e : registry())
                 if (mode.families & FB(e.fam))
-                    cand.push_back(&e);
+                    for (unsigned w = 0; w < weight(e.fam); ++w)
+                        cand.push_back(&e);
             if (cand.empty())
                 return Verdict::pass();
-            const Entry* chosen = cand[P(0) % cand.size()];
+            // parameter 0 is drawn with a bias towards small values: spread it before the modulo so
+            // that every subject is equally likely (saved programs pin their subject by name)
+            const Entry* chosen = cand[(uint64_t(P(0)) * 2654435761u >> 8) % cand.size()];
             if (!prog.hint.empty())
             {
                 // "# subject=" line: select by name (registry names normalised to the display form)
